@@ -13,7 +13,7 @@ import vx  # noqa: F401
 
 
 # --------------------------------------------------------------------------- artefacts
-def artefacts(wf, inputs=None):
+def artefacts(wf, inputs=None, mode="mixed"):
     """inspect(), composed graph, and a canonical conducted history (every offer + persisted state)."""
     from orquesta import conducting
     from orquesta import events
@@ -55,7 +55,7 @@ def artefacts(wf, inputs=None):
             # canonical schedule: newest first on even steps, oldest first on odd steps; every 5th fails
             tid, r, item, n = infl.pop(-1 if k % 2 == 0 else 0)
             k += 1
-            stt = st.FAILED if k % 5 == 0 else st.SUCCEEDED
+            stt = st.FAILED if (k % 5 == 0 or mode == "all_fail") else st.SUCCEEDED
             if item is None:
                 c.update_task_state(tid, r, events.ActionExecutionEvent(stt, result="r-%s" % tid))
             else:
@@ -87,7 +87,10 @@ def digest(x):
 
 def artefact_digests(wf, inputs=None):
     a = artefacts(wf, inputs)
-    return {k: digest(v) for k, v in a.items()}
+    out = {k: digest(v) for k, v in a.items()}
+    if "conduct" in a:
+        out["conduct_all_fail"] = digest(artefacts(wf, inputs, mode="all_fail").get("conduct"))
+    return out
 
 
 # --------------------------------------------------------------------------- (a) separate processes
